@@ -59,3 +59,12 @@ def run(ctx):
              'addressing expressions over the codec private struct (buffer offsets, indices) — a copy-paste slip in one variant shows as a set difference', floor=30)
     from engine.siblings import check_siblings
     check_siblings(ctx, prog, 'SIBLING-INDEX', ('pcm.c', 'float32.c', 'double64.c', 'ulaw.c', 'alaw.c'))
+
+    ctx.rule('FRAME-ALIGN', 'a block worker that advances its position by `count / channels` is only handed whole frames: the caller\'s own request, or a staging chunk whose capacity was rounded to a '
+             'multiple of the channel count, or (evidence re-checked) a codec restricted to 1-2 channels with an even capacity', floor=20)
+    ctx.rule('EOD-TAIL', 'the end-of-data exit of a block read loop (zero fill + return) is nested under, or conjoined with, the buffer-exhausted test, or is a strict test on a block counter that only '
+             'advances when the buffer is exhausted: buffered samples of the last block are always delivered', floor=6)
+    from engine.blockrules import frame_align, eod_tail
+    frame_align(ctx, prog)
+    eod_tail(ctx, prog)
+
